@@ -104,4 +104,14 @@ theorem C06_source_storage (ctx : SCtx) (st : TState) (cell : Option (List Memo)
         = some (popStack st).stack) :=
   source_storage_model ctx st cell h
 
+/-- the two one-value cells, translated from the source read today: each function reads and writes only the calling
+    thread's own `threading.local()` cell (the translator accepts no other place to keep the label or the flag, and no
+    initialisation at import time, which would exist on the importing thread only) -/
+theorem C06_source_cells (ctx : KCtx) (tp fl : Option KVal) (htp : TreepathCellOk tp) (hfl : FlattenCellOk fl) :
+    (runCellFn Generated.treepathFuns ctx Generated.clearTreepathCode tp = some (some .none, .inl .none) ∧
+     runCellFn Generated.treepathFuns ctx Generated.getTreepathCode tp
+       = (match tp with | some (.label i S) => some (tp, .inl (.label i S)) | _ => some (tp, .inr ()))) ∧
+    runCellFn Generated.treeflattenFuns ctx Generated.getTreeflattenCode fl = some (fl, .inl (.bool (flattenOfCell fl))) :=
+  ⟨⟨(source_cell_treepath ctx tp htp).1, (source_cell_treepath ctx tp htp).2.2⟩, (source_cell_flatten ctx fl hfl).2.2⟩
+
 end JV
